@@ -136,13 +136,16 @@ func TargetOpen(in *Input, rec *Rec) {
 			onPath[e] = true
 			defer delete(onPath, e)
 			all = append(all, e)
-			r.Lookup(p)
-			r.Lookup("/" + p + "/.")
+			byName := len(p) < 2048 // path based calls are quadratic on very deep trees
+			if byName {
+				r.Lookup(p)
+				r.Lookup("/" + p + "/.")
+			}
 			fi := e.Stat()
 			fi.Mode()
 			fi.ModTime()
 			fi.Size()
-			if e.Type == "reg" {
+			if e.Type == "reg" && byName {
 				var cos []int64
 				off := int64(0)
 				for k := 0; k < 32; k++ {
@@ -173,7 +176,7 @@ func TargetOpen(in *Input, rec *Rec) {
 					f.ReadAt(make([]byte, 64), 0)
 					f.ReadAt(make([]byte, 3), 5)
 				}
-			} else {
+			} else if byName {
 				r.OpenFile(p)
 				r.ChunkEntryForOffset(p, 0)
 			}
@@ -189,8 +192,10 @@ func TargetOpen(in *Input, rec *Rec) {
 			for _, k := range kids {
 				e.LookupChild(k.n)
 				cp := k.n
-				if p != "" {
+				if p != "" && byName {
 					cp = p + "/" + k.n
+				} else if p != "" {
+					cp = p // too deep: stop extending the path (name based calls are off anyway)
 				}
 				visit(cp, k.e)
 			}
@@ -277,7 +282,11 @@ func WalkMetadata(tag string, mr metadata.Reader, rec *Rec) (regs []uint32) {
 			} else {
 				mr.OpenFile(k.id)
 			}
-			visit(k.id, p+"/"+k.n)
+			cp := p
+			if len(p) < 2048 {
+				cp = p + "/" + k.n
+			}
+			visit(k.id, cp)
 		}
 		mr.GetChild(id, "no-such-child")
 		mr.GetChild(id, "")
